@@ -203,6 +203,7 @@ func (fc *fnCtx) applyCall(st *State, ce *callee, c *ssa.CallCommon, args []Val,
 		fc.bumpAlloc(st)
 		return fc.freshVal(st, "dyn", resT)
 	}
+	fc.callSiteClauses(st, ce, args, pos)
 	con := ce.con
 	if con == nil {
 		con = fc.g.defaultContract(ce)
@@ -292,6 +293,100 @@ func (fc *fnCtx) applyCall(st *State, ce *callee, c *ssa.CallCommon, args []Val,
 		fc.assume(st, "false")
 	}
 	return res
+}
+
+// baseName: the function name after the last dot ("(*CodeBuilder).handleCodeError" -> "handleCodeError").
+func baseName(s string) string {
+	if i := strings.LastIndex(s, "."); i >= 0 {
+		return s[i+1:]
+	}
+	return s
+}
+
+// callSiteClauses handles the assertcall / ghostset clauses of the function under verification.
+func (fc *fnCtx) callSiteClauses(st *State, ce *callee, args []Val, pos token.Pos) {
+	if fc.con == nil || fc.noOblige > 0 || (len(fc.con.CallAsserts) == 0 && len(fc.con.GhostSets) == 0 && len(fc.con.CallAssumes) == 0) {
+		return
+	}
+	bn := baseName(ce.name)
+	calleeEnv := func() *Env {
+		env := &Env{fc: fc, st: st, old: fc.entry, pkg: ce.pkg, vars: map[string]Val{}}
+		for i, n := range ce.params {
+			if i < len(args) {
+				a := args[i]
+				if a.Typ == nil {
+					a.Typ = ce.ptypes[i]
+				}
+				env.vars[n] = a
+			}
+		}
+		return env
+	}
+	for _, ca := range fc.con.CallAsserts {
+		if ca.Callee != bn {
+			continue
+		}
+		cond := "true"
+		if ca.Cond != "" {
+			cond = calleeEnv().evalBoolText(ca.Cond)
+		}
+		if cond == "false" {
+			continue
+		}
+		env := fc.envAt(st, fc.entry)
+		env.useLocals = true
+		// the callee's arguments are visible as arg_<param>
+		vars := map[string]Val{}
+		for k, v := range env.vars {
+			vars[k] = v
+		}
+		for k, v := range calleeEnv().vars {
+			vars["arg_"+k] = v
+		}
+		env.vars = vars
+		goal := Imp(cond, fc.evalClause(env, ca.Clause))
+		fc.oblige(st, "callassert."+bn, goal, pos, nil, ca.Clause.Text)
+	}
+	for _, ca := range fc.con.CallAssumes {
+		if ca.Callee != bn {
+			continue
+		}
+		env := fc.envAt(st, fc.entry)
+		env.useLocals = true
+		vars := map[string]Val{}
+		for k, v := range env.vars {
+			vars[k] = v
+		}
+		for k, v := range calleeEnv().vars {
+			vars["arg_"+k] = v
+		}
+		env.vars = vars
+		fc.assume(st, fc.evalAssume(env, ca.Clause))
+		fc.note("ASSUMED at call to %s: %s", bn, ca.Clause.Text)
+	}
+	for _, gs := range fc.con.GhostSets {
+		if gs.Callee != bn {
+			continue
+		}
+		cond := "true"
+		if gs.Cond != "" {
+			cond = calleeEnv().evalBoolText(gs.Cond)
+		}
+		if cond == "false" {
+			continue
+		}
+		name := fc.ghostVar(gs.Name)
+		cur := fc.H(st, name)
+		sym := fc.sc.Fresh("ghost." + gs.Name)
+		fc.sc.Def(sym, "Bool", Or(cond, cur))
+		st.heap[name] = sym
+	}
+}
+
+func (fc *fnCtx) ghostVar(name string) string {
+	n := Sym("ghost!" + name)
+	fc.heapSort[n] = "Bool"
+	return n
 }
 
 func shortName(s string) string {
@@ -426,21 +521,31 @@ func (fc *fnCtx) applyHavoc(st *State, tg assignTarget) {
 		}
 	case "heap":
 		for _, h := range tg.heaps {
+			before := fc.H(st, h)
 			fc.havocHeap(st, h)
+			if tg.cond != "" && tg.cond != "true" {
+				fc.setH(st, h, Ite(tg.cond, fc.H(st, h), before))
+			}
 		}
 	case "loc":
 		for i, h := range tg.heaps {
 			fresh := fc.sc.Fresh("hv")
 			fc.sc.Decl(fresh, nil, elemSortOfHeap(fc.heapSort[h]))
-			fc.setH(st, h, Store(fc.H(st, h), tg.keys[i], fresh))
+			before := fc.H(st, h)
+			nh := Store(before, tg.keys[i], fresh)
+			if tg.cond != "" && tg.cond != "true" {
+				nh = Ite(tg.cond, nh, before)
+			}
+			fc.setH(st, h, nh)
 		}
 	}
 }
 
 type assignTarget struct {
-	kind  string // everything | heap | loc
+	kind  string // everything | heap | loc | except
 	heaps []string
 	keys  []string
+	cond  string // when(cond, target): the target may only change if cond held in the pre-state
 }
 
 func elemSortOfHeap(arraySort string) string {
@@ -451,6 +556,16 @@ func elemSortOfHeap(arraySort string) string {
 
 func (fc *fnCtx) assignTarget(env *Env, text string) assignTarget {
 	text = strings.TrimSpace(text)
+	if strings.HasPrefix(text, "when(") && strings.HasSuffix(text, ")") {
+		parts := splitTop(text[5:len(text)-1], ',')
+		if len(parts) < 2 {
+			bail("assigns when(cond, target): bad syntax")
+		}
+		cond := env.evalBoolText(strings.TrimSpace(parts[0]))
+		tg := fc.assignTarget(env, strings.TrimSpace(strings.Join(parts[1:], ",")))
+		tg.cond = And(tg.cond, cond)
+		return tg
+	}
 	if text == "heap" || text == "everything" {
 		return assignTarget{kind: "everything"}
 	}
@@ -461,6 +576,29 @@ func (fc *fnCtx) assignTarget(env *Env, text string) assignTarget {
 			a = strings.TrimSpace(a)
 			if strings.HasPrefix(a, "[]") {
 				keep = append(keep, fc.elemHeap(env.resolveType(parseExprOrBail(a[2:]))))
+				continue
+			}
+			if strings.HasPrefix(a, "field:") {
+				// field:T.f — the heap of field f of struct type T
+				a = strings.TrimPrefix(a, "field:")
+				i := strings.LastIndex(a, ".")
+				t := env.resolveType(parseExprOrBail(a[:i]))
+				si := fc.so.structOf(t)
+				found := false
+				for k := 0; k < si.st.NumFields(); k++ {
+					if si.st.Field(k).Name() == a[i+1:] {
+						keep = append(keep, fc.fieldHeap(si, k))
+						found = true
+					}
+				}
+				if !found {
+					bail("heapexcept: no field %s", a)
+				}
+				continue
+			}
+			if strings.HasPrefix(a, "ghost:") {
+				d, v := fc.ghostHeaps(strings.TrimPrefix(a, "ghost:"))
+				keep = append(keep, d, v)
 				continue
 			}
 			t := env.resolveType(parseExprOrBail(a))
